@@ -68,10 +68,10 @@ Print Assumptions pml_observation_bound_enough.
 (* U, partial (missing: REMEMBER_HISTORY, ESTABLISH_ENTRY_SET, EXIT/TAKE/ENTER and the executable content --
    for those the tie is the line-by-line correspondence and the refutations below): SELECT_TRANSITIONS of the
    emitted model selects exactly the transitions FastMicroStep selects, in the same order, for every chart,
-   configuration, event and store, when In() is read correctly, the static conflict table is the engine's, the
+   configuration, event and store, when In() is read correctly, conditions are parenthesised, the static conflict table is the engine's, the
    guard literals decide the name matching for the event (trie_guard_literals_correct) and no condition fails. *)
 Theorem pml_step_equiv_select_partial : forall pv c cfg evf x,
-  pv_in_reads_root pv = false ->
+  pv_in_reads_root pv = false -> pv_cond_bare pv = false ->
   (forall i j, i < ntrans c -> j < ntrans c -> conflict_static c (tr c i) (tr c j) = fconflicts c (tr c i) (tr c j)) ->
   (forall i e, i < ntrans c -> evf = Some e -> ft_spontaneous (tr c i) = false ->
      resolved_match (guard_literals pv c i) (ev_name e) = name_match_impl nm_fixed (ft_event (tr c i)) (ev_name e)) ->
@@ -106,6 +106,9 @@ Print Assumptions pml_step_equiv_star_descriptor_refuted.
 Theorem pml_step_equiv_nested_history_refuted : exists t fp ff, ~ behaviour_preserved pml_as_written t 7 13 fp ff.
 Proof. exact history_below_deep_history_refuted. Qed.
 Print Assumptions pml_step_equiv_nested_history_refuted.
+Theorem pml_step_equiv_cond_parentheses_refuted : exists t fp ff, ~ behaviour_preserved pml_as_written t 7 13 fp ff.
+Proof. exact cond_top_level_or_refuted. Qed.
+Print Assumptions pml_step_equiv_cond_parentheses_refuted.
 Theorem pml_step_equiv_no_transitions_refuted : exists t fp ff, ~ behaviour_prefix pml_as_written t 7 13 fp ff.
 Proof. exact no_transitions_refuted. Qed.
 Print Assumptions pml_step_equiv_no_transitions_refuted.
@@ -119,7 +122,8 @@ Theorem pml_step_equiv_witnesses_repaired :
   behaviour_preserved (with_switch_off 4) w_shallow_history_nested 7 13 30 60 /\
   behaviour_preserved (with_switch_off 5) w_star_in_descriptor_list 7 13 20 40 /\
   behaviour_preserved (with_switch_off 6) w_history_below_deep_history 7 13 30 60 /\
-  behaviour_preserved (with_switch_off 7) w_no_transitions 7 13 20 40.
+  behaviour_preserved (with_switch_off 7) w_no_transitions 7 13 20 40 /\
+  behaviour_preserved (with_switch_off 9) w_cond_top_level_or 7 13 20 40.
 Proof. exact witnesses_repaired_by_their_switch. Qed.
 Print Assumptions pml_step_equiv_witnesses_repaired.
 
